@@ -43,7 +43,8 @@ def make_config(seed, tier="quick"):
         eut_in=r.choice([1, 1, 5, 20]),
         eut_out=r.choice([1, 1, 4]),
         n_stim=r.randint(1, 8 if not thorough else 20),
-        stim_classes=r.sample(["frame", "frame", "frame", "send", "app_disconnect", "peer_close"], r.randint(1, 6)),
+        stim_classes=r.sample(["frame", "frame", "frame", "send", "app_disconnect", "peer_close", "frame_burst",
+                               "peer_reconnect"], r.randint(1, 8)),
         frame_types=r.sample(FRAME_TYPES, r.randint(1, len(FRAME_TYPES))),
         defects=r.sample(DEFECTS, r.randint(1, len(DEFECTS))),
         p_overlap=r.choice([0.0, 0.0, 0.3, 1.0]),
@@ -215,6 +216,16 @@ class GateSim(PeerSim):
             return
         d = refframer.fdict(raw)
         e = self.ep
+        src = None
+        for sent in reversed(self.peer.sent[-60:]):
+            if sent["frame"] == raw:
+                src = sent
+                break
+        if src is not None and src.get("conn") is not None and src["conn"] < self.peer.n_connections:
+            self.flag("stale-input", f"C11/frame-of-a-dropped-connection-processed/type={d.get('35')}/{self.ctx()}",
+                      f"frame 35={d.get('35')} 34={d.get('34')} that the peer sent on connection #{src['conn']} (dropped since) "
+                      f"was decoded and processed on connection #{self.peer.n_connections}")
+            return
         first = not e["first_frame_seen"]
         e["first_frame_seen"] = True
         if d.get("35") == "A" and self.frame_acceptable(d):
@@ -236,7 +247,23 @@ class GateSim(PeerSim):
     def quiet(self):
         if any(t is not None and t.paused for c in self.net.conns for t in c.tr):
             return False
+        for c in self.net.conns:
+            for side in (0, 1):
+                if self.can_fire(["eof", c.cid, side]):
+                    return False  # a close that the other end has not seen yet is still "in flight"
         return self.at_rest() and not self.pending_hooks and not self.busy_sends
+
+    def calm(self):
+        """quiet() without the 'no runnable handle' condition."""
+        if any(t is not None and t.paused for c in self.net.conns for t in c.tr):
+            return False
+        for c in self.net.conns:
+            if not c.broken and (c.q[0] or c.q[1]):
+                return False
+            for side in (0, 1):
+                if self.can_fire(["eof", c.cid, side]):
+                    return False
+        return not self.pending_hooks and not self.busy_sends
 
     def connected_now(self):
         return self.peer.connected and self.eut.connection_state > DISC
@@ -268,8 +295,16 @@ class GateSim(PeerSim):
         if overlap:
             classes = [c for c in classes if c in ("app_disconnect", "peer_close", "send")] or ["app_disconnect"]
         cls = r.choice(classes)
-        if cls == "frame" and not self.peer.connected:
+        if cls in ("frame", "frame_burst") and not self.peer.connected:
+            cls = "peer_reconnect" if (self.eut_role == "acceptor" and r.random() < 0.7) else "send"
+        if cls == "peer_reconnect" and (self.peer.connected or self.eut_role != "acceptor"):
             cls = "send"
+        if cls == "frame_burst":
+            # a defective frame with valid frames right behind it in the same read
+            defect = r.choice([d for d in cfg["defects"] if d not in ("none", "seq_high", "begin")] or ["seq_missing"])
+            return [cls, r.choice(["D", "0", "5", "A"]), defect, r.randint(1, 3), r.randint(1, 3)]
+        if cls == "peer_reconnect":
+            return [cls, "x", 0, 0, 0]
         if cls == "frame":
             t = r.choice(cfg["frame_types"])
             defect = r.choice(cfg["defects"])
@@ -367,6 +402,47 @@ class GateSim(PeerSim):
             if p.connected:
                 p.close()
                 self.fault("peer_close")
+        elif cls == "peer_reconnect":
+            if not p.connected and self.eut_role == "acceptor" and not any(c.alive() for c in self.net.conns):
+                self.peer_connect()
+                self.fault("peer_reconnect")
+        elif cls == "frame_burst":
+            if not p.connected:
+                if cur is not None:
+                    cur["skipped"] = True
+                return
+            t, defect, n_follow = x, y, int(z)
+            E = lv.next_num_in
+            kw = {}
+            seq = E
+            if defect == "sender_wrong":
+                kw["sender"] = "EVIL"
+            elif defect == "target_wrong":
+                kw["target"] = "ELSE"
+            elif defect == "swapped":
+                kw["sender"], kw["target"] = p.eut_comp_id, p.comp_id
+            elif defect == "sender_missing":
+                kw["omit"] = ("49",)
+            elif defect == "target_missing":
+                kw["omit"] = ("56",)
+            elif defect == "seq_missing":
+                kw["omit"] = ("34",)
+            elif defect == "seq_low":
+                seq = max(1, E - w)
+            self.app_id += 1
+            body0 = {"A": [("98", "0"), ("108", self.cfg["hb"])], "0": [], "5": [("58", "bye")]}.get(
+                t, [("11", f"P-{self.app_id}"), ("55", "ES"), ("54", "1"), ("38", "1"), ("44", "1")])
+            items = [(t, body0, seq, kw)]
+            nxt = E
+            items.append(("A", [("98", "0"), ("108", self.cfg["hb"])], nxt, {}))
+            for i in range(n_follow):
+                self.app_id += 1
+                nxt += 1
+                items.append(("D", [("11", f"P-{self.app_id}"), ("55", "ES"), ("54", "1"), ("38", "1"), ("44", "1")], nxt, {}))
+            p.send_many(items, spec={"stim": 1, "defect": defect, "burst": 1})
+            self.fault("defective_frame_with_frames_behind_it_in_the_same_read")
+            if cur is not None:
+                cur.update(cls="burst")
 
     def build_send(self, t):
         self.app_id += 1
@@ -433,13 +509,15 @@ class GateSim(PeerSim):
     def window_over(self):
         """The endpoint polls an unconnected socket once per second, so a window only ends after the
         endpoint has been quiet for more than one tick of virtual time."""
-        if not self.quiet():
+        if not self.calm():
             self.quiet_since = None
             return False
         now = self.loop.time()
         if self.quiet_since is None:
             self.quiet_since = now
-        return now - self.quiet_since >= 1.1
+        # (the once-per-second polling of the library's own tasks makes a handle runnable at every other
+        # boundary: that alone does not restart the clock, but the window closes at a boundary without one)
+        return now - self.quiet_since >= 1.1 and self.quiet()
 
     def boundary_check(self):
         e = self.ep
